@@ -83,6 +83,14 @@ def _run_task(args):
         r["harness_errors"].append(f"{getattr(fn, '__name__', fn)}({_short(task)}): {type(e).__name__}: {e}\n{traceback.format_exc()[-1500:]}")
     r["solver_s"] = r.get("solver_s", 0.0) + smt.STATS["solver_s"]
     r["queries"] = r.get("queries", 0) + smt.STATS["queries"]
+    if smt.XCHECK["every"]:
+        ex = r.setdefault("extra", {})
+        ex["crosscheck_external_runs"] = smt.XCHECK["done"]
+        ex["crosscheck_agree"] = smt.XCHECK["agree"]
+        ex["crosscheck_inconclusive"] = smt.XCHECK["skipped"]
+        if smt.XCHECK["disagree"]:
+            r.setdefault("harness_errors", []).append("solver cross-check disagreement: " + "; ".join(smt.XCHECK["disagree"][:3]))
+        smt.XCHECK.update({"done": 0, "agree": 0, "disagree": [], "skipped": 0})
     r["wall"] = time.time() - t
     return r
 
